@@ -249,7 +249,7 @@ PROPERTIES["C11"] = {
     "explanation": "C11: gboost::early_stopping_t::done/round/value/values over all histories of length k; ml::result_t::{add, store, stats, value, values, extra, optimum_trial} with distinct symbols per stored tensor (an index mix-up is a solver-visible violation).",
     "assumptions": SRE_ASSUME + ["error values boxed to [0,1000] (values >= DBL_MAX-eps would defeat the monitor's numeric_limits::max() sentinel and are outside the claim)"],
     "bounds": {"history length": "<= 5 (quick), <= 7 (thorough)", "patience": "1..4", "trials x folds": "<= 3 x 3", "samples per stored tensor": "1..2"},
-    "outside": ["the boosting rounds themselves and the per-fold statistics produced by them (inner solvers, weak-learner fitting, samplers): unit C11_fit replaces the tuning driver by a scripted one (symbolic per-fold models and error tensors) and covers the real code AFTER the driver: fold averaging, prediction = bias + sum of weak learners, final statistics recomputed on the fitted samples",
+    "outside": ["the inner solvers of the boosting rounds (unit C11_rounds runs the real rounds with an arbitrary-point oracle as inner solver; its exploration is truncated by the path/time budget: 8-20 complete paths in the quick tier); unit C11_fit replaces the tuning driver by a scripted one (symbolic per-fold models and error tensors) and covers the real code AFTER the driver: fold averaging, prediction = bias + sum of weak learners, final statistics recomputed on the fitted samples",
                 "fit() of linear models with the real inner solver (unit C11_linear runs the real fit with an arbitrary-point oracle as inner solver: per-fold and final statistics vs recomputation; the absolute-error statistics mostly come back `unknown` from nlsat, the loss statistics are decided; exploration is truncated by the path budget in the quick tier)"],
     "units": [
         {"engine": "sre", "harness": "C11_monitor", "sources": ["C11_monitor.cpp"],
@@ -260,16 +260,22 @@ PROPERTIES["C11"] = {
          "encoded": ["nano::gboost::early_stopping_t::done", "nano::gboost::mean_error", "nano::ml::result_t::{add, store, stats, value, values, extra, optimum_trial}",
                      "nano::ml::store_stats", "nano::ml::load_stats", "nano::percentile (through store_stats)"]},
         {"engine": "sre", "harness": "C11_fit", "sources": ["C11_fit.cpp"],
-         "quick": ["n=4;sub=1;T=1;F=2;wl=1", "n=5;sub=1;T=2;F=2;wl=2", "n=4;sub=0;T=1;F=2;wl=1", "n=5;sub=1;T=1;F=2;wl=3"],
+         "quick": ["n=4;sub=1;T=1;F=2;wl=1", "n=5;sub=1;T=2;F=2;wl=2", "n=4;sub=0;T=1;F=2;wl=1"],
          "thorough": ["n=4;sub=1;T=1;F=2;wl=1", "n=5;sub=1;T=2;F=2;wl=2", "n=4;sub=0;T=1;F=2;wl=1", "n=5;sub=1;T=1;F=2;wl=3", "n=6;sub=1;T=3;F=2;wl=1", "n=4;sub=0;T=2;F=3;wl=1", "n=5;sub=1;T=1;F=3;wl=2"],
-         "budget": {"quick": {"deadline_s": 120, "max_paths": 5000}, "thorough": {"deadline_s": 900, "max_paths": 100000, "query_s": 30}},
+         "budget": {"quick": {"deadline_s": 60, "max_paths": 5000, "query_s": 5}, "thorough": {"deadline_s": 900, "max_paths": 100000, "query_s": 30}},
          "encoded": ["nano::gboost_model_t::fit (everything after the tuning driver: optimum trial, fold-model summation, wlearner::merge, scale(1/folds), predict, gboost::evaluate, selected(), result_t::store)",
                      "nano::gboost_model_t::do_predict", "nano::learner_t::{fit_dataset, predict}", "nano::affine_wlearner_t::{do_predict, scale, try_merge}", "nano::ml::result_t::{optimum_trial, extra, store, stats}",
                      "nano::targets_iterator_t::loop", "nano::flatten_loss_t<mse>::{value, error}"]},
+        {"engine": "sre", "harness": "C11_rounds", "sources": ["C11_rounds.cpp"],
+         "quick": ["n=4;folds=2;ws=1;wl=dense-table;f=sr;pos=1"],
+         "thorough": ["n=4;folds=2;ws=1;wl=dense-table;f=sr;pos=1", "n=4;folds=2;ws=0;wl=affine;f=rr;pos=1", "n=4;folds=2;ws=1;wl=dense-table;f=sr;pos=0", "n=5;folds=2;ws=1;wl=stump;f=rr;pos=1", "n=6;folds=3;ws=1;wl=dense-table;f=ssr;pos=1"],
+         "budget": {"quick": {"deadline_s": 60, "max_paths": 3000, "query_s": 5}, "thorough": {"deadline_s": 1200, "max_paths": 100000, "query_s": 30}},
+         "encoded": ["nano::gboost_model_t::fit", "(anonymous)::fit (boosting rounds: bias, gradients, weak-learner selection, make_cluster, scale function, shrinkage, early stopping)", "nano::gboost::result_t::{update, done}", "nano::gboost::evaluate",
+                     "nano::gboost::early_stopping_t::done", "nano::gboost::sampler_t::sample", "nano::dense_table_wlearner_t / affine_wlearner_t::{fit, predict, scale, split}", "nano::ml::tune (real driver)", "solver_t::minimize replaced by an arbitrary-point oracle"]},
         {"engine": "sre", "harness": "C11_linear", "sources": ["C11_linear.cpp"],
-         "quick": ["model=ordinary;n=4;folds=2;sc=0", "model=ordinary;n=5;folds=2;sc=0;sub=1"],
+         "quick": ["model=ordinary;n=5;folds=2;sc=0;sub=1"],
          "thorough": ["model=ordinary;n=4;folds=2;sc=0", "model=ordinary;n=5;folds=2;sc=0;sub=1", "model=ordinary;n=4;folds=2;sc=2", "model=ordinary;n=6;folds=3;sc=0;sub=1", "model=ridge;n=4;folds=2;sc=0"],
-         "budget": {"quick": {"deadline_s": 60, "max_paths": 3000, "query_s": 5}, "thorough": {"deadline_s": 900, "max_paths": 100000, "query_s": 30}},
+         "budget": {"quick": {"deadline_s": 45, "max_paths": 3000, "query_s": 5}, "thorough": {"deadline_s": 900, "max_paths": 100000, "query_s": 30}},
          "encoded": ["nano::linear_t::{fit, do_predict}", "(anonymous)::fit (flatten iterator, make_function, un-scaling of weights and bias)", "nano::linear::evaluate", "nano::linear::predict", "nano::ml::tune (real driver)", "nano::ml::result_t::{store, stats, extra, optimum_trial}",
                      "nano::kfold_splitter_t::split", "nano::upscale(stats, scaling, ...)", "solver_t::minimize replaced by an arbitrary-point oracle"]},
     ],
